@@ -1,6 +1,7 @@
 import RosuModel.Lemmas.ModsAccessors
 import RosuModel.Lemmas.ModsRef
 import RosuModel.Lemmas.Attrs
+import RosuModel.Gen.LazerSettings
 
 /-!
 # C08 — results do not depend on how equivalent settings are expressed
@@ -283,5 +284,55 @@ example : ∃ (l : List (LMod Rat)) (x : LMod Rat), x ∈ l ∧ isRate x.kind = 
       rcases hm with rfl | rfl
       · intro h; exact absurd h (by decide)
       · intro _; rfl, rfl⟩
+
+/-! ## settings of lazer mods (generated arms)
+
+`Model/Mods.lean` evaluates the accessors below for lazer mods with *default* settings
+(`Rep.reflection`: HardRockOsu ↦ Vertical, Mirror ↦ Horizontal; `Rep.noSliderHeadAcc`: Classic ↦
+true; `Rep.hardrockOffsets` = `hr`; no scroll speed, no random seed).  The arms those defaults were
+read from are re-extracted from `src/model/mods.rs` on every run; a change of an arm or of a default
+breaks the obligation. -/
+
+section LazerSettings
+open Rosu.Gen.LazerSettings
+
+theorem lazer_settings_shapes_understood : lazerSettingsUnknown = [] := by decide
+
+/-- The lazer arms of `reflection`, `no_slider_head_acc`, `hardrock_offsets`, `scroll_speed`,
+`random_seed`, what is applied to the lookup's result, and how the other two representations are
+treated — exactly the shapes `Model/Mods.lean` was transcribed from:
+* `reflection`: first of HardRockOsu ↦ Vertical, MirrorOsu ↦ by its `reflection` setting (unset ↦
+  Horizontal, "1" ↦ Vertical, "2" ↦ Both, anything else ↦ None), MirrorCatch ↦ Horizontal; no such
+  mod ↦ None; Intermode/Legacy: HardRock ↦ Vertical, else None;
+* `no_slider_head_acc(lazer)`: ClassicOsu ↦ its `no_slider_head_accuracy` setting, unset ↦ `true`; no
+  Classic ↦ `!lazer`; Intermode: `Classic || !lazer`; Legacy: `!lazer`;
+* `hardrock_offsets`: DifficultyAdjustCatch's `hard_rock_offsets` setting, otherwise (unset, other
+  representations) `self.hr()`;
+* `scroll_speed`: DifficultyAdjustTaiko's setting, lazer only;
+* `random_seed`: the seed of RandomTaiko / RandomMania as `i32`, lazer only. -/
+theorem lazer_setting_arms_as_modelled :
+    lazerArms =
+      [("reflection",
+          [("GameMod::HardRockOsu(_)", "Some(Reflection::Vertical)"),
+           ("GameMod::MirrorOsu(mr)", "match mr.reflection.as_deref(){None=>Some(Reflection::Horizontal),Some(\"1\")=>Some(Reflection::Vertical),Some(\"2\")=>Some(Reflection::Both),Some(_)=>Some(Reflection::None)}"),
+           ("GameMod::MirrorCatch(_)", "Some(Reflection::Horizontal)"), ("_", "None")]),
+       ("no_slider_head_acc",
+          [("GameMod::ClassicOsu(cl)", "Some(cl.no_slider_head_accuracy.unwrap_or(true))"), ("_", "None")]),
+       ("hardrock_offsets",
+          [("GameMod::DifficultyAdjustCatch(DifficultyAdjustCatch{hard_rock_offsets,..})", "*hard_rock_offsets"),
+           ("_", "None")]),
+       ("scroll_speed", [("GameMod::DifficultyAdjustTaiko(da)", "Some(da.scroll_speed)"), ("_", "None")]),
+       ("random_seed", [("GameMod::RandomTaiko(m)", "m.seed"), ("GameMod::RandomMania(m)", "m.seed"), ("_", "None")])] ∧
+    lazerTail =
+      [("reflection", ".unwrap_or(Reflection::None)"), ("no_slider_head_acc", ".unwrap_or(!lazer)"),
+       ("hardrock_offsets", ""), ("scroll_speed", ".flatten()"), ("random_seed", ".map(|seed|seed as i32)")] ∧
+    accessorContext =
+      [("reflection", "match self{Self::Lazer(ref mods)=><LAZER>,Self::Intermode(ref mods)=>{if mods.contains(GameModIntermode::HardRock){Reflection::Vertical}else{Reflection::None}}Self::Legacy(mods)=>{if mods.contains(GameModsLegacy::HardRock){Reflection::Vertical}else{Reflection::None}}}"),
+       ("no_slider_head_acc", "match self{Self::Lazer(ref mods)=><LAZER>,Self::Intermode(ref mods)=>mods.contains(GameModIntermode::Classic)||!lazer,Self::Legacy(_)=>!lazer}"),
+       ("hardrock_offsets", "fn custom_hardrock_offsets(mods:&GameMods)->Option<bool>{match mods{GameMods::Lazer(ref mods)=><LAZER>,GameMods::Intermode(_)|GameMods::Legacy(_)=>None}}custom_hardrock_offsets(self).unwrap_or_else(||self.hr())"),
+       ("scroll_speed", "let Self::Lazer(mods)=self else{return None};<LAZER>"),
+       ("random_seed", "let Self::Lazer(mods)=self else{return None};<LAZER>")] := by decide +kernel
+
+end LazerSettings
 
 end Rosu.Mods
